@@ -691,6 +691,12 @@ impl PollSys {
                     }
                     sc.reset_all();
                 }
+                if self.report.reset {
+                    let fresh = self.new_scanner();
+                    if let Some(d) = post_reset_differential(&sc, &fresh, self.ch, &[99, 98, 101, 100, 38, 6, 96, 97], 3, true) {
+                        v.push(self.vx("reset-behaves-like-new", "reset-storm", || format!("after {} resets: {}", n, d)));
+                    }
+                }
                 let ob = Obs { last6: s.ob.last6, last38: s.ob.last38, ..Obs::default() };
                 Step { next: Some(PoState { sc, now: s.now, ob }), obs: 0, violations: v }
             }
@@ -732,6 +738,9 @@ impl PollSys {
                     let fresh = self.new_scanner();
                     if sc != fresh {
                         v.push(self.vx("reset-equals-new", "reset", || format!("after reset() the scanner is {:?}, a new one with the same timeout is {:?}", sc, fresh)));
+                    }
+                    if let Some(d) = post_reset_differential(&sc, &fresh, self.ch, &[99, 98, 101, 100, 38, 6, 96, 97], 3, true) {
+                        v.push(self.vx("reset-behaves-like-new", "reset", || d));
                     }
                 }
                 Step { next: None, obs: 0, violations: v }
